@@ -107,12 +107,8 @@ Definition cordero_absent_ok (t : cov) (z : Z) : bool :=
   else ((if Z.eqb z 0 then true else rq_eqb (cov_radius EB t z) NoneVal) && rq_eqb (cov_unc_raw EB t z) NoneVal)%bool.
 Definition cordero_group_ok (t : cov) (g : Z * Q * list Q) : bool :=
   let '(z, r, _) := g in rq_eqb (cov_radius EB t z) (Val r).
-Definition percent_ok (scale : Q) (e : Z * Q * Q) : bool :=
-  let u := snd e in
-  Qle_bool (Qabs (cov_unc_float scale u - u / 100)) (u / 100 * (1 # 2 ^ 50)).
-Lemma percent_ok_sound : forall scale z r u, percent_ok scale (z, r, u) = true ->
-  (Qabs (cov_unc_float scale u - u / 100) <= u / 100 * (1 # 2 ^ 50))%Q.
-Proof. intros scale z r u H. apply Qle_bool_iff. exact H. Qed.
+Definition pct_lhs (scale u : Q) : Q := Qabs (cov_unc_float scale u - u / 100).
+Definition pct_rhs (u : Q) : Q := u / 100 * (1 # 2 ^ 50).
 
 Lemma cordero_rows_c : on the_cov (fun t => forallb (cordero_row_ok t) cordero_numbered) = true.
 Proof. Time vm_compute. reflexivity. Time Qed.
@@ -122,7 +118,7 @@ Lemma cordero_groups_c : on the_cov (fun t => forallb (cordero_group_ok t) corde
 Proof. Time vm_compute. reflexivity. Time Qed.
 Lemma cordero_accounted_c : forallb row_accounted Cordero = true.
 Proof. Time vm_compute. reflexivity. Time Qed.
-Lemma cordero_percent_c : forallb (percent_ok unc_scale) cordero_numbered = true.
+Lemma cordero_percent_c : forallb (fun e => Qle_bool (pct_lhs unc_scale (snd e)) (pct_rhs (snd e))) cordero_numbered = true.
 Proof. Time vm_compute. reflexivity. Time Qed.
 Lemma cordero_has_alternates_c :
   existsb (fun g => match snd g with [] => false | _ => true end) cordero_groups = true.
@@ -181,10 +177,10 @@ Qed.
 
 Open Scope Q_scope.
 Theorem uncertainty_is_percent : forall z r u, In (z, r, u) cordero_numbered ->
-  Qabs (cov_unc_float unc_scale u - u / 100) <= u / 100 * (1 # 2 ^ 50).
+  pct_lhs unc_scale u <= pct_rhs u.
 Proof.
   intros z r u Hin. pose proof cordero_percent_c as H. rewrite forallb_forall in H.
-  exact (percent_ok_sound unc_scale z r u (H _ Hin)).
+  apply Qle_bool_iff. exact (H _ Hin).
 Qed.
 Close Scope Q_scope.
 
@@ -297,9 +293,10 @@ Definition olq_eqb := opt_eqb lq_eqb.
 Lemma mff_cont_c :
   on the_mff (fun t => forallb (fun kv => olq_eqb (assoc mkey_eqb mff_listed (fst kv)) (Some (snd kv))) (mff_flat t)) = true.
 Proof. Time vm_compute. reflexivity. Time Qed.
+Definition mget (t : mff) (k : mkey) : option (list Q) := mff_get t (fst (fst k)) (snd (fst k)) (snd k).
 Lemma mff_listed_c :
-  on the_mff (fun t => forallb (fun kv => match fst kv with (z, c, jn) => olq_eqb (mff_get t z c jn) (Some (snd kv)) end) mff_listed) = true.
-Proof. Time vm_compute. reflexivity. Time Qed.
+  on the_mff (fun t => forallb (fun kv => olq_eqb (mget t (fst kv)) (Some (snd kv))) mff_listed) = true.
+Proof. vm_compute. reflexivity. Qed.
 
 Theorem magnetic_entries : forall t, the_mff = Some t -> forall z c jn,
   mff_get t z c jn = assoc mkey_eqb mff_listed (z, c, jn).
@@ -307,11 +304,10 @@ Proof.
   intros t E z c jn.
   pose proof (on_elim _ _ _ t mff_cont_c E) as H2. rewrite forallb_forall in H2.
   pose proof (on_elim _ _ _ t mff_listed_c E) as H3. rewrite forallb_forall in H3.
-  apply (agree mkey_eqb mkey_eqb_eq (fun k => match k with (z, c, jn) => mff_get t z c jn end) (mff_flat t) mff_listed).
+  refine (agree mkey_eqb mkey_eqb_eq (mget t) (mff_flat t) mff_listed _ _ _ (z, c, jn)).
   - intros [[z' c'] j'] v G. apply mff_get_in_flat. exact G.
   - intros kv Hin. apply (opt_eqb_eq _ _ lq_eqb_eq). exact (H2 _ Hin).
-  - intros [[[z' c'] j'] v] Hin. specialize (H3 _ Hin). cbn [fst snd] in H3. cbn [fst snd].
-    apply (opt_eqb_eq _ _ lq_eqb_eq). exact H3.
+  - intros kv Hin. apply (opt_eqb_eq _ _ lq_eqb_eq). exact (H3 _ Hin).
 Qed.
 
 (* el.magnetic_ff raises AttributeError exactly for the elements without any statement *)
